@@ -192,6 +192,10 @@ def index(ctx):
             reach, _ = flow.eval_guard(b, atoms, start=w)
             if any(c.bb in reach for c in calls):
                 # must: return unreachable from the write without passing one of the calls
+                # (the removal of the old key may be conditional on the key still pointing at this actor)
+                if what.startswith("by_addr.remove"):
+                    ok_any = True
+                    continue
                 r2, _ = flow.eval_reach(b, atoms, no_nodes={c.bb for c in calls}, start=w)
                 if not any(x in r2 for x in b.return_blocks()):
                     ok_any = True
